@@ -35,7 +35,8 @@ Types == { TInt, TFlt, TStr, TBool, TNull, TRange, TAnyObj,
            TOpt(TInt), TOpt(TList(TInt)), TOpt(TStr),
            TObj(<<"a">>, <<TInt>>), TObj(<<"a", "b">>, <<TInt, TStr>>), TObj(<<"a">>, <<TList(TInt)>>),
            TObj(<<"a", "b">>, <<TOpt(TInt), TList(TStr)>>),
-           TObj(<<"n", "t">>, <<TStr, TOpt(TList(TInt))>>), TList(TOpt(TObj(<<"a">>, <<TList(TInt)>>))) }
+           TObj(<<"n", "t">>, <<TStr, TOpt(TList(TInt))>>), TList(TOpt(TObj(<<"a">>, <<TList(TInt)>>))),
+           TObj(<<"m", "o">>, <<TInt, TAnyObj>>), TOpt(TAnyObj), TList(TAnyObj) }
 
 JsonTypes == { T \in Types : T.t # "range" }    \* (ranges have no JSON form)
 
@@ -53,7 +54,20 @@ AnyObjs == { [k |-> "anyobj", ks |-> <<>>, vs |-> <<>>],
              [k |-> "anyobj", ks |-> <<"a">>, vs |-> <<VS("x")>>],
              [k |-> "anyobj", ks |-> <<"b">>, vs |-> <<VI(1)>>],
              [k |-> "anyobj", ks |-> <<"a", "b">>, vs |-> <<VI(1), VI(1)>>],
-             [k |-> "anyobj", ks |-> <<"a", "b">>, vs |-> <<VI(1), VS("x")>>] }
+             [k |-> "anyobj", ks |-> <<"a", "b">>, vs |-> <<VI(1), VS("x")>>],
+             \* members which are containers themselves (their display spans several lines) and members of different kinds
+             \* under one key (an any-object is where a list can meet an int)
+             [k |-> "anyobj", ks |-> <<"a">>, vs |-> <<[k |-> "list", es |-> <<VI(1)>>]>>],
+             [k |-> "anyobj", ks |-> <<"a">>, vs |-> <<[k |-> "obj", ks |-> <<"x">>, vs |-> <<VI(1)>>]>>],
+             [k |-> "anyobj", ks |-> <<"a">>, vs |-> <<[k |-> "anyobj", ks |-> <<"x">>, vs |-> <<VI(1)>>]>>],
+             [k |-> "anyobj", ks |-> <<"a">>, vs |-> <<[k |-> "anyobj", ks |-> <<"x">>, vs |-> <<[k |-> "anyobj", ks |-> <<"y">>, vs |-> <<VS("x")>>]>>]>>],
+             [k |-> "anyobj", ks |-> <<"a", "b">>, vs |-> <<VSome([k |-> "obj", ks |-> <<"x">>, vs |-> <<VI(1)>>]), VS("s\nt")>>],
+             [k |-> "anyobj", ks |-> <<"a">>, vs |-> <<[k |-> "list", es |-> <<[k |-> "obj", ks |-> <<"x", "y">>, vs |-> <<VI(1), VS("x")>>]>>]>>],
+             [k |-> "anyobj", ks |-> <<"a">>, vs |-> <<VSome(VI(1))>>],
+             [k |-> "anyobj", ks |-> <<"a">>, vs |-> <<VSome([k |-> "list", es |-> <<VI(1)>>])>>],
+             [k |-> "anyobj", ks |-> <<"a">>, vs |-> <<VSome([k |-> "obj", ks |-> <<"x">>, vs |-> <<VI(1)>>])>>],
+             [k |-> "anyobj", ks |-> <<"a">>, vs |-> <<VSome([k |-> "anyobj", ks |-> <<"x">>, vs |-> <<VI(1)>>])>>],
+             [k |-> "anyobj", ks |-> <<"a">>, vs |-> <<VNone>>] }
 
 RECURSIVE ValsOf(_)
 ValsOf(T) ==
@@ -136,10 +150,27 @@ ApplyMut(v, mu) ==
     ELSE LET l == SubAt(v, mu.p) IN ValReplaceAt(v, mu.p, [l EXCEPT !.es = Append(@, l.es[1])])    \* push a copy of the first element
 
 -----------------------------------------------------------------------------
+\* JSON has one kind of object and no options: below a member of an any-object (whose static type is `any`) nothing says
+\* that a JSON object was an any-object or that a value was wrapped in an option, so such values are not JSON-representable
+\* (under a declared type both are: the type says what to build)
+RECURSIVE Plain(_)
+Plain(v) ==
+    CASE v.k = "list" -> \A j \in 1..Len(v.es) : Plain(v.es[j])
+      [] v.k = "obj" -> \A j \in 1..Len(v.vs) : Plain(v.vs[j])
+      [] v.k \in {"anyobj", "opt"} -> FALSE
+      [] OTHER -> TRUE
+RECURSIVE JsonRepresentable(_)
+JsonRepresentable(v) ==
+    CASE v.k = "list" -> \A j \in 1..Len(v.es) : JsonRepresentable(v.es[j])
+      [] v.k = "obj" -> \A j \in 1..Len(v.vs) : JsonRepresentable(v.vs[j])
+      [] v.k = "anyobj" -> \A j \in 1..Len(v.vs) : Plain(v.vs[j])
+      [] v.k = "opt" -> ~v.some \/ JsonRepresentable(v.v)
+      [] OTHER -> TRUE
+
 Init ==
     /\ done = FALSE /\ hist = <<>>
     /\ ty \in (IF Mode = "json" THEN JsonTypes ELSE Types)
-    /\ a \in ValsOf(ty)
+    /\ a \in (IF Mode = "json" THEN {x \in ValsOf(ty) : JsonRepresentable(x)} ELSE ValsOf(ty))
     /\ IF Mode = "eq" THEN b \in ValsOf(ty) ELSE b = a       \* clone: b is the copy
     /\ v0 = a
 
